@@ -563,6 +563,10 @@ func (s *Sim) refetchClass(r *Req) int8 {
 			loaded = false
 			continue
 		}
+		if e.send && e.q != r && e.q.Rf == 1 && (!e.q.Delivered || !s.processed(r.Name, e.q.DlvCut)) {
+			// an earlier get of undecided kind is still under way: so is this one
+			fuzzy = true
+		}
 		if !e.send && !s.processed(r.Name, e.cut) && e.q.Query == r.Query && r.Query != vq && initial[e.q] {
 			// the answer to the load of this very entry may still be waiting: r
 			// may be a re-fetch of the entry while it is being loaded
@@ -641,6 +645,12 @@ func (s *Sim) refetchClass(r *Req) int8 {
 		if throttled(refEnd) {
 			return 1
 		}
+		if s.Cfg.Gw.ReferenceThrottle > 0 && s.resetSinceSubscribed(r) {
+			// the load of a referenced resource may wait in the reference throttle
+			// while a reset makes the gateway re-fetch the entry: which of the two
+			// get requests comes first cannot be told from outside
+			return 1
+		}
 		return 0
 	}
 	if !isQuery {
@@ -681,6 +691,28 @@ func (s *Sim) loadedAnew(v *Variant, seen uint64) bool {
 	for _, q := range s.tr.reqs {
 		if same(q) && q.Seq > after && q.GotData && q.Delivered {
 			return true
+		}
+	}
+	return false
+}
+
+// resetSinceSubscribed: a system reset matching r's resource was delivered
+// after the gateway subscribed to its events (this time) and before r was sent.
+func (s *Sim) resetSinceSubscribed(r *Req) bool {
+	var subSeq uint64
+	for _, ev := range s.tr.Log {
+		if ev.Kind == "sub" && ev.NS == "event."+r.Name && ev.Seq < r.Seq {
+			subSeq = ev.Seq
+		}
+	}
+	for _, rec := range s.W.Resets {
+		if !rec.Dlv || rec.DlvSeq < subSeq || rec.DlvSeq > r.Seq {
+			continue
+		}
+		for _, p := range rec.Resources {
+			if matchPattern(p, r.Name) {
+				return true
+			}
 		}
 	}
 	return false
